@@ -3,6 +3,7 @@
   `Decode.processMessage` is the model of the Go decoder; `Spec.Wire` are the Kafka formats.
 -/
 import BurrowVerif.Proofs.Wire
+import BurrowVerif.Proofs.Consume
 
 namespace Burrow.Props.C07
 open Burrow Burrow.Decode Burrow.Spec.Wire
@@ -78,5 +79,73 @@ example : fixture.encValue = [0, 0, 0, 0, 0, 0, 0, 0, 0x20, 0xb4, 0, 8] ++ "test
 example : (processMessage (fun _ => true) 42 fixture.encKey fixture.encValue).reqs
     = [.offset "testgroup".toUTF8.toList "testtopic".toUTF8.toList 11 8372 1637 42] := by
   decide +kernel
+
+/-! ### From the offsets topic to the decoder: the partition consumers (`startKafkaConsumer`,
+    `startBackfillPartitionConsumer`, `partitionConsumer` — run for real by the `consume` stream) -/
+
+open Burrow.Consume in
+/-- A live consumer hands EVERY message it receives to the decoder, once, in order, and never stops of
+    its own accord: what it forwards over any message sequence (nil messages and consume errors in
+    between) is the concatenation of what each message yields — so the round-trip theorems above hold
+    of every message of every partition. -/
+theorem every_message_reaches_the_decoder (accept : Accept) (reported : Option Bytes) (msgs : List (Option Msg)) :
+    consume accept reported none msgs =
+      ((msgs.filterMap id).flatMap (Proofs.Consume.forwarded accept reported), false) :=
+  Proofs.Consume.live_consume accept reported msgs
+
+open Burrow.Consume in
+/-- A backfill consumer handles every message up to AND INCLUDING the first one at or beyond its end
+    offset — the last record published before start-up, which the live consumer (started at the next
+    offset) never sees — and ends there. -/
+theorem backfill_handles_the_end_offset_then_stops (accept : Accept) (reported : Option Bytes) (e : Int)
+    (pre post : List (Option Msg)) (m : Msg) (h : ∀ x, some x ∈ pre → x.offset < e) (hm : m.offset ≥ e) :
+    consume accept reported (some e) (pre ++ some m :: post) =
+      (((pre.filterMap id).flatMap (Proofs.Consume.forwarded accept reported)) ++
+        Proofs.Consume.forwarded accept reported m, true) :=
+  Proofs.Consume.backfill_consume accept reported e pre post m h hm
+
+open Burrow.Consume in
+/-- … and does not end before. -/
+theorem backfill_runs_until_the_end_offset (accept : Accept) (reported : Option Bytes) (e : Int)
+    (msgs : List (Option Msg)) (h : ∀ x, some x ∈ msgs → x.offset < e) :
+    consume accept reported (some e) msgs =
+      ((msgs.filterMap id).flatMap (Proofs.Consume.forwarded accept reported), false) :=
+  Proofs.Consume.backfill_not_ended accept reported e msgs h
+
+open Burrow.Consume in
+/-- The end offset of a backfill is the last PUBLISHED offset (`newest − 1`), and a backfill runs
+    exactly when the partition holds something older than that; an empty partition's consumer is
+    closed at once. -/
+theorem backfill_end_is_last_published (c : Cfg) (p o n : Int) (hf : c.failConsume ≠ (2, p))
+    (ho : c.oldest p = some o) (hn : c.newest p = some n) (hpos : n > 0) :
+    startBackfill c p =
+      if o ≥ n - 1 then
+        (some { inst := 2, partition := p, startFrom := offsetOldest, stopAt := none, running := false, closed := true }, true)
+      else
+        (some { inst := 2, partition := p, startFrom := offsetOldest, stopAt := some (n - 1), running := true, closed := false }, true) := by
+  simp [startBackfill, hf, ho, hn, hpos]
+
+open Burrow.Consume in
+/-- A start whose calls all succeed opens one live consumer per partition of the offsets topic — from
+    the newest offset iff `start-latest` — and, with `backfill-earliest`, one backfill attempt per
+    partition. -/
+theorem start_covers_every_partition (c : Cfg) (ps : List Int) (hp : c.partitions = some ps)
+    (hc : c.failConsumer = 0) (hl : ∀ p ∈ ps, c.failConsume ≠ (1, p)) :
+    (start c).opened =
+      (ps.map fun p => { inst := 1, partition := p, startFrom := if c.startLatest then offsetNewest else offsetOldest,
+                         stopAt := none, running := true, closed := false : PC }) ++
+      (if c.backfill then (ps.map (startBackfill c)).filterMap (·.1) else []) := by
+  unfold start
+  rw [hc, hp]
+  simp only [Nat.zero_ne_one, if_false]
+  rw [Proofs.Consume.startLive_all c _ ps hl]
+  cases hb : c.backfill <;> simp
+
+/-! non-vacuity: offsets 0..4 published (newest = 5), backfill from 0 ends at 4 and handles it -/
+private def cfgEx : Consume.Cfg :=
+  { startLatest := true, backfill := true, partitions := some [0, 1], oldest := fun _ => some 0,
+    newest := fun p => if p = 0 then some 5 else some 0, failConsumer := 0, failConsume := (0, 0) }
+example : (Consume.start cfgEx).opened.map (fun c => (c.inst, c.partition, c.stopAt, c.running)) =
+    [(1, 0, none, true), (1, 1, none, true), (2, 0, some 4, true), (2, 1, none, false)] := by decide
 
 end Burrow.Props.C07
